@@ -441,11 +441,10 @@ func checkC08(c *Ctx, r *Report) {
 					return ok && g.Name() == "AdvancedEnableInlining"
 				}
 				w1, n1 := (&Cut{Fn: f, TargetEdge: edgeSet(es), EdgeCut: edgeBool(isInl, true)}).Run(c)
-				w2, n2 := (&Cut{Fn: f, TargetEdge: edgeSet(es), EdgeCut: edgeCmp(func(b *ssa.BinOp) bool {
-					k, isC := constInt(b.Y)
-					call, _ := b.X.(*ssa.Call)
-					return isC && k == maxInline && b.Op == token.LEQ && call != nil && calleeKey(call) == "builtin.len" && strip(call.Call.Args[0]) == strip(a[0])
-				}, true)}).Run(c)
+				w2, n2 := (&Cut{Fn: f, TargetEdge: edgeSet(es), EdgeCut: edgeExcl(func(v ssa.Value) bool {
+					call, _ := v.(*ssa.Call)
+					return call != nil && calleeKey(call) == "builtin.len" && strip(call.Call.Args[0]) == strip(a[0])
+				}, func(v ssa.Value) bool { k, isC := constInt(v); return isC && k == maxInline }, ordGT)}).Run(c)
 				r5.Check(w1 == "" && w2 == "" && len(es) > 0, "IDFromPublicKey: IDENTITY only under AdvancedEnableInlining && len(b) <= maxInlineKeyLength", f.Pos(), n1+n2, "", "keys longer than the inline bound (or with inlining off) are embedded instead of hashed", w1+w2)
 			}
 			for _, ret := range successReturns(f) {
